@@ -74,6 +74,8 @@ class CompiledFunction:
         default_factory=dict
     )  # bytecode_pos -> (line, column)
     is_arrow: bool = False  # Arrow functions take this from their creator
+    # A named function expression whose name is not redeclared in it
+    binds_own_name: bool = False
 
 
 @dataclass
@@ -1321,7 +1323,11 @@ class Compiler:
 
         # For named function expressions, add the function name as a local
         # This allows recursive calls like: var f = function fact(n) { return n <= 1 ? 1 : n * fact(n-1); }
-        if is_expression and name:
+        # (a parameter or var of the same name shadows it)
+        redeclared = {p.name for p in params}
+        self._collect_var_decls(body, redeclared)
+        binds_own_name = bool(is_expression and name and name not in redeclared)
+        if binds_own_name:
             self.locals.append(name)
 
         self.loop_stack = []
@@ -1368,6 +1374,7 @@ class Compiler:
             free_vars=self._free_vars[:],
             cell_vars=self._cell_vars[:],
             source_map=self.source_map,
+            binds_own_name=binds_own_name,
         )
 
         # Pop outer scope if we pushed it
